@@ -388,6 +388,12 @@ def m_char_from_u8(px, st, fr, ev):
     return val(ev["args"][0])
 
 
+@model(*["<%s as std::default::Default>::default" % t for t in ("usize", "u64", "u32", "u16", "u8", "isize", "i64", "i32", "bool")],
+       reason="Default::default() of a primitive integer is 0, of bool is false")
+def m_prim_default(px, st, fr, ev):
+    return val(const(0))
+
+
 @model("<std::option::Option<T> as std::default::Default>::default", reason="Option::default() is None")
 def m_option_default(px, st, fr, ev):
     return val(NONE)
